@@ -48,7 +48,9 @@ RULE = ("one case = call sequence + how the request ends (return, Finish, HTTPEr
 # cases
 
 def call(kind="set", name="a", value="v", domain=None, expires=None, path="/", max_age=None,
-         httponly=False, secure=False, samesite=None, expires_days=30):
+         httponly=False, secure=False, samesite=None, expires_days="default"):
+    if expires_days == "default":       # the API defaults: None, except set_signed_cookie's 30
+        expires_days = 30 if kind == "signed" else None
     return {"kind": kind, "name": name, "value": value, "domain": domain, "expires": expires, "path": path,
             "max_age": max_age, "httponly": httponly, "secure": secure, "samesite": samesite,
             "expires_days": expires_days}
@@ -62,30 +64,42 @@ def _ts(dt):
     return calendar.timegm(dt.utctimetuple())
 
 
+NOW_TS = calendar.timegm(FIXED_NOW.utctimetuple())
+
+
 def model_call(op):
     """The `call` record the model is given for one op (signed value computed by Tornado)."""
     kind = op["kind"]
     value = op["value"]
-    expires = None
     max_age = op["max_age"]
-    if kind == "set":
-        expires = op["expires"]
-    elif kind == "clear":
-        expires = _ts(FIXED_NOW - _dt.timedelta(days=365))
+    expires = op["expires"]
+    if kind == "clear":
+        expires = None          # clear_cookie refuses the keyword; the model supplies now - 365 d itself
         max_age = None
-    else:
+    elif kind == "signed":
         from tornado import web
         value = web.create_signed_value(SECRET, op["name"], op["value"], clock=lambda: NOW).decode("utf-8")
-        if op["expires_days"] is not None:
-            expires = _ts(FIXED_NOW + _dt.timedelta(days=op["expires_days"]))
-    return {"name": op["name"], "value": value, "domain": op["domain"], "expires": expires, "path": op["path"],
+    return {"name": op["name"], "value": value, "domain": op["domain"], "expires": expires,
+            "expires_days": op["expires_days"], "kind": kind, "path": op["path"],
             "max_age": max_age, "httponly": op["httponly"], "secure": op["secure"], "samesite": op["samesite"]}
+
+
+def _requested_expiry(c):
+    """the documented rule, written independently: an explicit (truthy) expires wins over
+    expires_days; clear_cookie always asks for now - 365 days"""
+    if c["kind"] == "clear":
+        return NOW_TS - 365 * 86400
+    if c["expires"]:
+        return c["expires"]
+    if c["expires_days"] is not None:
+        return NOW_TS + 86400 * c["expires_days"]
+    return None
 
 
 def _expires_text(c):
     """independent of Tornado and of the model: datetime arithmetic + strftime-free formatting"""
-    t = c["expires"]
-    if not t:
+    t = _requested_expiry(c)
+    if t is None:
         return None
     d = _dt.datetime(1, 1, 1) + _dt.timedelta(seconds=t + 62135596800)
     return "%s, %02d %s %04d %02d:%02d:%02d GMT" % (
@@ -103,8 +117,9 @@ def coq_input(case):
     for op in case["ops"]:
         c = model_call(op)
         ctor = {"set": "OpSet", "clear": "OpClear", "signed": "OpSigned"}[op["kind"]]
-        out.append("%s (mkCall %s %s %s %s %s %s %s %s %s)" % (
-            ctor, G.gbytes(c["name"]), G.gbytes(c["value"]), _gopt(c["domain"]), G.goption(c["expires"], G.gz, "Z"), _gopt(c["path"]),
+        out.append("%s (mkCall %s %s %s %s %s %s %s %s %s %s %s)" % (
+            ctor, G.gbytes(c["name"]), G.gbytes(c["value"]), _gopt(c["domain"]), G.goption(c["expires"], G.gz, "Z"),
+            G.goption(c["expires_days"], G.gz, "Z"), G.gz(NOW_TS), _gopt(c["path"]),
             G.goption(c["max_age"], G.gz, "Z"), G.gbool(c["httponly"]), G.gbool(c["secure"]), _gopt(c["samesite"])))
     return "(%s, %s)" % (G.glist(out, "op"), _gending(case.get("end")))
 
@@ -177,10 +192,15 @@ def run_impl(case):
                           samesite=op["samesite"])
                 try:
                     if op["kind"] == "set":
-                        self.set_cookie(op["name"], op["value"], expires=op["expires"], max_age=op["max_age"], **kw)
+                        self.set_cookie(op["name"], op["value"], expires=op["expires"], max_age=op["max_age"],
+                                        expires_days=op["expires_days"], **kw)
                     elif op["kind"] == "clear":
+                        if op["expires_days"] is not None:
+                            kw["expires_days"] = op["expires_days"]
                         self.clear_cookie(op["name"], **kw)
                     else:
+                        if op["expires"] is not None:
+                            kw["expires"] = op["expires"]
                         self.set_signed_cookie(op["name"], op["value"], expires_days=op["expires_days"],
                                                max_age=op["max_age"], **kw)
                     res.append(Tag("Ok"))
@@ -256,7 +276,7 @@ def _dec_requested(c):
     out = []
     if c["domain"]:
         out.append(("Domain", c["domain"]))
-    if c["expires"]:
+    if _expires_text(c) is not None:
         out.append(("expires", _expires_text(c)))
     if c["httponly"]:
         out.append(("HttpOnly", None))
@@ -393,7 +413,8 @@ def _rand_call(rng, wild=False):
                 path,
                 rng.choice([None, None, None, 0, 1, -1, 10, 3600, 2 ** 31, 10 ** 20]),
                 rng.random() < 0.3, rng.random() < 0.3, ss,
-                rng.choice([30, None, 1, 0, 365]))
+                rng.choice([None, None, None, 30, 1, 0, 365, -1, -400, 4000000, -800000]) if kind != "signed"
+                else rng.choice([30, 30, None, 1, 0, 365, -1, 4000000]))
 
 
 def corpus_cases():
@@ -420,6 +441,12 @@ def corpus_cases():
         mk(call(value="1"), call(name="b", value="2"), call(value="\u20ac")),   # a call failing the final header check keeps the earlier setting (moved last)
         mk(call(value="1"), call(value="2", domain="\u0100")), 
         mk(call(value="\u20ac"), call(value="3")),
+        # seeded C25_3: an explicit expires wins over expires_days (also set_signed_cookie's default 30, clear_cookie + expires_days)
+        mk(call(value="v", expires=1000000000, expires_days=7), call("signed", name="s", value="v", expires=1000000000),
+           call("clear", name="gone", expires_days=30), call(name="d", value="v", expires=0, expires_days=2),
+           call(name="e", value="v", expires_days=-3)),
+        mk(call(value="v", expires_days=4000000), call(name="b", value="v", expires_days=-800000),
+           call(name="c", value="v", expires=5, expires_days=4000000), call("signed", name="s", value="v", expires_days=None)),
         # an unrepresentable expiry raises before the jar is touched (was: half-built cookie "a=v" sent, earlier setting lost)
         mk(call(value="1", secure=True), call(value="v", expires=253402300800), call(name="b", value="v", expires=10 ** 18, domain="d.e")),
         mk(call(value="v", expires=2 ** 63), call(value="v", expires=-62135596801), call(name="path", value="v", expires=10 ** 15)),
@@ -484,6 +511,11 @@ def gen_cases(rng, tier):
     stamps += [rng.randrange(-62135596800, 253402300800) for _ in range(40 if tier == "quick" else 600)]
     for i in range(0, len(stamps), 4):
         out.append(mk(*[call(name="t%d" % k, value="v", expires=t) for k, t in enumerate(stamps[i:i + 4])]))
+    # expires x expires_days x kind: the precedence rule on every combination
+    for kind in ("set", "signed", "clear"):
+        for ex in (None, 0, 1, 1000000000, 253402300799, 253402300800, -5):
+            for ed in (None, 0, 1, 30, -365, 4000000):
+                out.append(mk(call(kind, name="k", value="v", expires=ex, expires_days=ed)))
     # boundary numbers
     for m in [0, 1, -1, 9, 10, 99, 100, 2 ** 31 - 1, 2 ** 63, -2 ** 63, 10 ** 30]:
         out.append(mk(call(value="v", max_age=m)))
